@@ -41,7 +41,7 @@ ASSUMPTIONS = ['group-by columns have a concrete type (Any-typed group-by column
                'documents contain no user formulas except formula columns added to summary tables',
                'a summary table whose source no longer has the group-by column (column removed) is judged on its '
                'remaining group-by columns as recorded in the metadata']
-BUDGET = {'quick': dict(examples=1400, shards=16, max_seconds=45),
+BUDGET = {'quick': dict(examples=1400, shards=16, max_seconds=40),
           'thorough': dict(examples=16000, shards=16, max_seconds=540)}
 SHRINK_BUDGET = {'quick': 100, 'thorough': 400}
 
@@ -381,6 +381,9 @@ def setup_bundles(d, s):
       for j, c in enumerate(cols):
         cv[c['id']].append(gb_value(d, c['type'], row[j % len(row)]))
     yield [['BulkAddRecord', SRC, [None] * len(rows), cv]]
+    if s.get('shuffle') and len(rows) > 1:
+      # the user drags the last row to the top: row order (manualSort) no longer follows row ids
+      yield [['UpdateRecord', SRC, len(rows), {'manualSort': 0.5}]]
   for m in (s.get('summaries') or [1])[:3]:
     src = src_table(d)
     if not src:
@@ -524,7 +527,7 @@ _sel = st.integers(0, 7)
 _mask6 = st.integers(0, 63)
 
 WEIGHTS = {'add': 10, 'upd': 22, 'rm': 8, 'rmpeople': 2, 'summary': 4, 'regroup': 8, 'rmsection': 1, 'rencol': 2,
-           'rentable': 1, 'modtype': 8, 'rmcol': 3, 'addcol': 2, 'addf': 3, 'undo': 8, 'move': 3, 'rmpeopletable': 1}
+           'rentable': 1, 'modtype': 8, 'rmcol': 3, 'addcol': 2, 'addf': 3, 'undo': 8, 'move': 4, 'rmpeopletable': 1}
 
 
 def _op():
@@ -560,6 +563,7 @@ def strategy(tier):
     'types': st.lists(st.integers(0, len(GB_TYPES) - 1), min_size=2, max_size=5),
     'rows': st.lists(st.lists(O.valspec(), min_size=1, max_size=5), min_size=0, max_size=6),
     'summaries': st.lists(_mask6, min_size=1, max_size=3),
+    'shuffle': st.booleans(),
   })
   bundle = st.one_of(st.lists(_op(), min_size=1, max_size=1), st.lists(_op(), min_size=1, max_size=1),
                      st.lists(_op(), min_size=2, max_size=2))
